@@ -37,6 +37,11 @@ func init() {
 }
 
 func runC18(c *an.Ctx) {
+	// ---- C18-R9: builder wiring of the components this property rests on
+	c.Floor("C18-R9", 2)
+	builderWiring(c, "C18-R9", map[string][]string{
+		"initDNS|dnssvc.Config": {"ConnLimiter", "ServerGroups"},
+	})
 	c18Close(c)
 	checkFieldMap(c, "C18-R6", "cmd.(servers).toInternal", "agd.TCPConfig", map[string]string{
 		"IdleTimeout": ".TCPIdleTimeout.Duration", "MaxPipelineCount": ".TCP.MaxPipelineCount", "MaxPipelineEnabled": ".TCP.Enabled"})
@@ -594,8 +599,10 @@ func c18Wiring(c *an.Ctx) {
 func c18Close(c *an.Ctx) {
 	c.Floor("C18-R8", 1)
 	decide(c, "C18-R8", "connlimiter.(*limitListener).Close", an.DecideCfg{
-		Dom:    an.Domain{"p0.isClosed": an.Bools, "closeerr": an.Bools},
-		Inline: func(f *ssa.Function) bool { return strings.HasPrefix(an.FnKey(f), "connlimiter.(*limitListener).Close$") },
+		Dom: an.Domain{"p0.isClosed": an.Bools, "closeerr": an.Bools},
+		Inline: func(f *ssa.Function) bool {
+			return strings.HasPrefix(an.FnKey(f), "connlimiter.(*limitListener).Close$")
+		},
 		OnCall: func(it *an.Interp, name string, args []an.AV) (an.AV, bool) {
 			switch {
 			case name == "p0.Listener.Close":
